@@ -98,7 +98,9 @@ CLAIMED = {
              "returns (nodes_are_traverse), prefixes strictly increase (nodes_preorder: each once, parents first, left to right), "
              "every non-blank node is yielded (nodes_complete); and the loop of nodes() AS WRITTEN - fog with nearest_right(()), "
              "frontier cache with traverse on a miss and traverse_from(parent, segment) on a hit, explore, cache maintenance - yields "
-             "exactly this pre-order (nodes_loop_is_preorder). Tie: keys/items/values/nodes sequences (also against the model's "
+             "exactly this pre-order (nodes_loop_is_preorder); the raw-level transcriptions of _get_next_key / _get_key_after over the "
+             "database (annotate_node + traverse_from over rlp-decoded nodes) equal the tree-level functions on every stored canonical "
+             "trie (Raw.next_key_refines, Raw.key_after_refines). Tie: keys/items/values/nodes sequences (also against the model's "
              "transcription of the loop) and next(k) for stored, neighbouring and foreign keys.",
         technique="Lean 4 proof (order theory on nibble paths, induction on the tree model) + correspondence check",
         design_ref="6/C10"),
@@ -229,9 +231,14 @@ CLAIMED = {
              "every pair met was stored in some version (sound); on an unchanging trie the pairs met are exactly the contents "
              "(exact); while keys have at most L nibbles every step strictly decreases a measure starting at 17^(L+1) "
              "(step_decreases, measure_start), so the walk terminates with the fog complete under finitely many modifications "
-             "(unbounded ever-longer modifications: termination is false and not claimed). Modelled not proved: that a stale cached "
-             "node is the node of an older version (hash-linked immutability of old subtrees; with pruning, a pruned child raises "
-             "MissingTraversalNode and the entry is dropped) - tied by running real walks with the real cache against the model.",
+             "(unbounded ever-longer modifications: termination is false and not claimed). The loop body AS CALLERS WRITE IT "
+             "(Model/Walk.lean cstep: cache lookup, traverse_from(cached parent, segment) on a hit / traverse(prefix) on a miss, "
+             "simulated node, explore, cache.add / cache.delete) is proved to be an abstract step on some version that occurred, with "
+             "the invariant 'every cache entry describes some version at its prefix' maintained (concrete_step), so whole concrete "
+             "runs with stale cache entries find every stable key and meet nothing never stored (concrete_finds_stable, "
+             "concrete_sound). Modelled not proved: that a cached node object still resolves in the database (with pruning, a pruned "
+             "child raises MissingTraversalNode and the caller drops the entry) - tied by running real walks with the real cache "
+             "against the model, each whole step compared with cstep as one transition.",
         technique="Lean 4 proof (walk invariant over arbitrary schedules, well-founded measure) + correspondence check on real walks",
         design_ref="6/C09"),
     "C18": dict(
